@@ -254,8 +254,9 @@ Definition maybe_append (l : raft_log) (i t cmt : N) (ents : list entry)
          else
            if i =? u64_max then Panic site_l_overflow else          (* idx + 1 *)
            if ci <? i + 1 then Panic site_l_underflow else          (* conflict_idx - (idx + 1) *)
+           (* &ents[start..]: compared in N so that a huge start is not converted to nat *)
+           if N.of_nat (length ents) <? ci - (i + 1) then Panic site_l_sub_slice else
            let start := N.to_nat (ci - (i + 1)) in
-           if (length ents <? start)%nat then Panic site_l_sub_slice else
            r <- log_append l (skipn start ents) ;;
            let l' := fst r in
            Ok (if ci - 1 <? persisted l' then set_persisted l' (ci - 1) else l')) ;;
